@@ -20,15 +20,18 @@ import (
 // floor((now - 2015-01-01T00:00:00Z) / 10us) instead of a wall-clock bracket: readings a few nanoseconds before
 // and after a whole second, a whole 10us tick, and years far from 2015 are all in the alphabet.
 func TestC07WriterClock(t *testing.T) {
-	rec := evid.New(t, "C07", "time.Now patched to a generated non-decreasing sequence of readings (years 2015..2100, the 48-bit field wraps in 2104; nanosecond offsets concentrated within 100 ns of whole seconds and of whole 10us ticks); every keyed write of streamwriter.Writer and frame.Writer must carry exactly floor((now-2015-01-01 UTC)/10us) and never less than the previous frame of the link; non-trivial = a reading within 100 ns of a whole second; distinct by hash of the readings")
-	rec.Require("reading-just-below-whole-second", "reading-just-above-whole-second", "reading-just-below-tick", "far-future-year")
+	rec := evid.New(t, "C07", "time.Now patched to a generated non-decreasing sequence of readings (years 2015..2100, the 48-bit field wraps in 2104; nanosecond offsets concentrated within 100 ns of whole seconds and of whole 10us ticks); the clock standing still or advancing 1..9999 ns per reading; every keyed write of streamwriter.Writer and frame.Writer must carry floor((now-2015-01-01 UTC)/10us) for a reading between its begin and its return (exactly that value when the clock stands still) and never less than the previous frame of the link; non-trivial = a reading within 100 ns of a whole second; distinct by hash of the readings")
+	rec.Require("reading-just-below-whole-second", "reading-just-above-whole-second", "reading-just-below-tick", "far-future-year", "clock-moves-while-a-frame-is-written")
 	common, _ := dialects(t)
 	refDate := time.Date(2015, 1, 1, 0, 0, 0, 0, time.UTC)
 	evid.Check(t, rec, evid.N(3000, 20000), func(t *rapid.T) {
 		readBufSize = 512
 		var fake int64 // nanoseconds since refDate
+		// the clock stands still while a frame is written, or (as a real one does) moves on by a few nanoseconds
+		// to a few hundred every time it is read
+		step := rapid.SampledFrom([]int64{0, 0, 1, 40, 400, 9999}).Draw(t, "clock_advances_per_reading_ns")
 		guard := monkey.Patch(time.Now, func() time.Time {
-			return refDate.Add(time.Duration(atomic.LoadInt64(&fake)))
+			return refDate.Add(time.Duration(atomic.AddInt64(&fake, step) - step))
 		})
 		defer guard.Unpatch()
 		useStream := rapid.Bool().Draw(t, "streamwriter")
@@ -76,8 +79,10 @@ func TestC07WriterClock(t *testing.T) {
 				t.Fatalf("emitted bytes do not parse: %v", perr)
 			}
 			want := uint64(cur / 10000)
-			if p.Timestamp != want {
-				msg := fmt.Sprintf("write %d with the clock at 2015-01-01T00:00:00Z + %d ns (%v): signature timestamp %d, but 10us units since 2015-01-01 UTC give %d (off by %d)", i, cur, refDate.Add(time.Duration(cur)).Format(time.RFC3339Nano), p.Timestamp, want, int64(p.Timestamp)-int64(want))
+			after := atomic.LoadInt64(&fake)
+			cur = after // the clock does not go back
+			if p.Timestamp < want || p.Timestamp > uint64(after/10000) {
+				msg := fmt.Sprintf("write %d with the clock at 2015-01-01T00:00:00Z + %d ns (%v) when the write began and %d ns later when it returned (it advances %d ns per reading): signature timestamp %d, but 10us units since 2015-01-01 UTC give %d..%d (off by %d)", i, readings[len(readings)-1], refDate.Add(time.Duration(readings[len(readings)-1])).Format(time.RFC3339Nano), after-readings[len(readings)-1], step, p.Timestamp, want, after/10000, int64(p.Timestamp)-int64(want))
 				evid.ReplayNote("C07", "TestC07WriterClock", msg)
 				t.Fatalf("%s", msg)
 			}
@@ -98,7 +103,10 @@ func TestC07WriterClock(t *testing.T) {
 				nontrivial = true
 			}
 		}
-		rec.Case(nontrivial, evid.Hash(hb), cls...)
+		if step > 0 {
+			cls = append(cls, "clock-moves-while-a-frame-is-written")
+		}
+		rec.Case(nontrivial, evid.Hash(hb, []byte{byte(step), byte(step >> 8)}), cls...)
 		if nontrivial && rec.WantSample("clock-readings") {
 			rec.Sample("clock-readings", map[string]interface{}{"streamwriter": useStream, "ns_since_2015": readings})
 		}
